@@ -10,42 +10,44 @@
 EXTENDS Naturals, Sequences, FiniteSets, TLC, Json, IOUtils
 
 Rec == ndJsonDeserialize(IOEnv.TRACE)
-VARIABLES l, refs, placed, temps, drift
-tvars == <<l, refs, placed, temps, drift>>
-TraceInit == l = 1 /\ refs = {} /\ placed = {} /\ temps = {} /\ drift = 0
+VARIABLES l, refs, dest, placed, temps, drift
+tvars == <<l, refs, dest, placed, temps, drift>>
+TraceInit == l = 1 /\ refs = {} /\ dest = {} /\ placed = {} /\ temps = {} /\ drift = 0
 IsEvent(e) == l <= Len(Rec) /\ Rec[l].ev = e /\ l' = l + 1
 D(c) == IF c THEN 0 ELSE 1
 
 TraceRun ==
   /\ IsEvent("Run")
-  /\ refs' = {Rec[l].refs[i] : i \in 1..Len(Rec[l].refs)} /\ placed' = {} /\ temps' = {} /\ UNCHANGED drift
+  /\ refs' = {Rec[l].refs[i] : i \in 1..Len(Rec[l].refs)} /\ dest' = {Rec[l].entry} \cup {Rec[l].refs[i] : i \in 1..Len(Rec[l].refs)}
+  /\ placed' = {} /\ temps' = {} /\ UNCHANGED drift
 
 TraceOpen ==
   /\ IsEvent("Open")
   /\ (Rec[l].role = "dest" => ~(Rec[l].write \/ Rec[l].trunc \/ Rec[l].creat)) = TRUE      \* DestAllOrNothing
   /\ temps' = IF Rec[l].role = "temp" THEN temps \cup {Rec[l].path} ELSE temps
   /\ drift' = drift + D(Rec[l].role = "temp" => (Rec[l].excl /\ Rec[l].inDestDir))
-  /\ UNCHANGED <<refs, placed>>
+  /\ UNCHANGED <<refs, dest, placed>>
 
 TraceWrite ==
   /\ IsEvent("Write")
   /\ (Rec[l].role # "dest") = TRUE
   /\ drift' = drift + D(Rec[l].path \notin placed)            \* no write after the rename
-  /\ UNCHANGED <<refs, placed, temps>>
+  /\ UNCHANGED <<refs, dest, placed, temps>>
 
 TraceRename ==
   /\ IsEvent("Rename")
   /\ (Rec[l].toRole = "entry" => refs \subseteq placed) = TRUE                               \* EntryPointLast
   /\ placed' = placed \cup {Rec[l].to}
   /\ drift' = drift + D(Rec[l].from \in temps)
-  /\ UNCHANGED <<refs, temps>>
+  /\ UNCHANGED <<refs, dest, temps>>
 
 TraceAfter ==
   /\ IsEvent("After")
   /\ LET r == Rec[l] IN
        (/\ \A i \in 1..Len(r.classes) : r.classes[i] \in {"absent", "previous", "complete"}
-        /\ (r.entryClass = "complete" => r.refsComplete)) = TRUE
-  /\ UNCHANGED <<refs, placed, temps, drift>>
+        /\ (r.entryClass = "complete" => r.refsComplete)
+        /\ (r.variant = "none" => dest \subseteq placed)) = TRUE        \* every output of a complete creation arrived by a rename
+  /\ UNCHANGED <<refs, dest, placed, temps, drift>>
 
 TraceNext == TraceRun \/ TraceOpen \/ TraceWrite \/ TraceRename \/ TraceAfter
 TraceSpec == TraceInit /\ [][TraceNext]_tvars
